@@ -470,6 +470,11 @@ impl V {
             let is_last = i + 1 == terms.len();
             self.flow.set((after_match, prov));
             let before = cur.clone();
+            if let Term::Block(_) = t {
+                if i > 0 && before.has_union() && matches!(&terms[i - 1], Term::Access(Src::Param | Src::Ripple, a) if !a.is_empty()) {
+                    return Err("block applied to a union-typed field of the parameter (open finding: its parameter becomes `never` after `cond =>`)".into());
+                }
+            }
             if let Term::Match(p) = t {
                 let maybe_nil = before.contains_nil() && !before.is_nil();
                 let field_access = i > 0 && matches!(&terms[i - 1], Term::Access(_, a) if !a.is_empty());
@@ -770,12 +775,13 @@ impl V {
                 if ty.is_nil() || ty.is_never() {
                     return Err("statically dead steps".into());
                 }
-                // F25 family: after the step `~.1,` on a field of type `T | []` the compiler still treats
-                // the flowing value as nil-able; a nil-accepting pattern on it (`=_`, a binder) in a
-                // following block then loses the consequence's bindings (`#['int, ('int | [])] { ~.1, { =_ => =h h } }`
-                // is rejected with VariableUndefined, `… => =h` gives nil)
-                if ty.contains_nil() && matches!(c.terms.last(), Some(Term::Access(_, a)) if !a.is_empty()) && c.pat.is_none() {
-                    return Err("nil-able field access as a sequence step (F25 family)".into());
+                // open finding: a block whose parameter is a field of the enclosing parameter (`$.1 { … }`,
+                // `~.1, { … }`) of union type: the `=>` forward narrowing propagates to the parameter's source
+                // provenance `Field(Parameter, 1)`, which is resolved against the block's own scope and makes the
+                // block parameter `never` in the consequence (`… { =0x6b => ='bin }` answers nil,
+                // `… { =_ => =h h }` is rejected with VariableUndefined)
+                if ty.has_union() && matches!(c.terms.last(), Some(Term::Access(_, a)) if !a.is_empty()) && c.pat.is_none() {
+                    return Err("union-typed field access as a sequence step (open finding: a block parameter sourced from a field of the parameter becomes `never` after `cond =>`)".into());
                 }
                 env.settle(&pending);
                 env.kill_pending();
@@ -868,13 +874,6 @@ impl V {
         for v in cap.vars.iter_mut() {
             v.prov = false;
             v.used.set(false);
-        }
-        // open finding: the labels of the parameter's tuple type hide outer variables of the same
-        // name from the capture analysis (`x = 1, f = #[x: 'int] { x }` is rejected with
-        // VariableUndefined) although the parameter is only reachable through `$`
-        if let Ty::Tup(_, fs) = param {
-            let labels: Vec<&String> = fs.iter().filter_map(|(l, _)| l.as_ref()).collect();
-            cap.vars.retain(|v| !labels.contains(&&v.name));
         }
         let Some(body) = body else {
             if param.is_nil() {
